@@ -157,8 +157,10 @@ class ExpandedTraceback:
         frames = list(tb_e.stack)
         # A SyntaxError has to be handled differently to actually get its output:
         # https://docs.python.org/3/library/traceback.html#traceback.print_exception
-        if isinstance(self.exception, SyntaxError):
-            offset = self.exception.offset
+        # Not every SyntaxError has a position (e.g., source code with null bytes, or
+        # a student's own ``raise SyntaxError("...")``); those get no extra frame.
+        if isinstance(self.exception, SyntaxError) and self.exception.lineno is not None:
+            offset = self.exception.offset if self.exception.offset is not None else 1
             if IS_AT_LEAST_PYTHON_310 and not IS_SKULPT:
                 end_lineno = self.exception.end_lineno
                 end_offset = offset if self.exception.end_offset not in {None, 0} else offset
